@@ -39,15 +39,23 @@ def run(cmd, timeout=None, cwd=None, env=None, memlimit_gb=None):
 
 
 class Unit:
-    """one harness TU (program x back-end) with its generated C harness"""
-    def __init__(s, name, be, cpp_text, harness_text, index, exc=False, extra_flags=()):
+    """one harness (program x back-end) with its generated C harness.  parts: the C++ TUs linked into it
+    (one normally; two for product harnesses, each translated with its own symbol prefix)"""
+    def __init__(s, name, be, cpp_text, harness_text, index, exc=False, extra_flags=(), parts=None, rt_files=None):
         s.name = name; s.be = be; s.index = index; s.exc = exc
-        s.dir = os.path.join(workdir(), '%s_be%d' % (name, be))
+        s.dir = os.path.join(workdir(), '%s_be%s' % (name, be))
         os.makedirs(s.dir, exist_ok=True)
-        s.cpp = os.path.join(s.dir, 'tu.cpp'); s.hc = os.path.join(s.dir, 'harness.c')
-        s.ll = os.path.join(s.dir, 'tu.ll'); s.genc = os.path.join(s.dir, 'tu_gen.c')
-        open(s.cpp, 'w').write(cpp_text); open(s.hc, 'w').write(harness_text)
-        s.flags = ['-DVF_BE=%d' % be] + list(extra_flags)
+        s.hc = os.path.join(s.dir, 'harness.c')
+        open(s.hc, 'w').write(harness_text)
+        if parts is None: parts = [('', cpp_text, ['-DVF_BE=%d' % be] + list(extra_flags), '')]
+        s.parts = []
+        for suf, text, flags, pfx in parts:
+            cpp = os.path.join(s.dir, 'tu%s.cpp' % suf)
+            open(cpp, 'w').write(text)
+            s.parts.append({'suf': suf, 'cpp': cpp, 'flags': list(flags), 'pfx': pfx,
+                            'll': os.path.join(s.dir, 'tu%s.ll' % suf), 'genc': os.path.join(s.dir, 'tu%s_gen.c' % suf)})
+        s.cpp = s.parts[0]['cpp']; s.ll = s.parts[0]['ll']; s.genc = s.parts[0]['genc']
+        s.rt_files = rt_files or [VERIF + '/harness/vf_harness.c']
         s.exe_real = os.path.join(s.dir, 'real'); s.exe_gen = os.path.join(s.dir, 'gen')
         s.functions = []
         s.nevents = 4
@@ -56,33 +64,44 @@ class Unit:
     def excflag(s): return [] if s.exc else ['-fno-exceptions']
 
     def build_real(s):
-        rc, out, t = run(['g++', '-O1', '-c', s.cpp, '-o', s.dir + '/tu.o'] + CXXFLAGS + s.flags + s.excflag())
-        s.times['g++'] = t
-        if rc: raise VfError('g++ failed for %s be%d:\n%s' % (s.name, s.be, out[-3000:]))
-        rc, out, t = run(['gcc', '-O1', '-c', s.hc, '-o', s.dir + '/h_real.o', '-I' + VERIF + '/harness'])
-        if rc: raise VfError('gcc harness failed:\n' + out[-3000:])
-        rc, out, t = run(['gcc', '-O1', '-c', VERIF + '/harness/vf_harness.c', '-o', s.dir + '/rt_real.o', '-I' + VERIF + '/harness'])
-        if rc: raise VfError('gcc harness rt failed:\n' + out[-3000:])
-        rc, out, t = run(['g++', s.dir + '/tu.o', s.dir + '/h_real.o', s.dir + '/rt_real.o', '-o', s.exe_real])
+        objs = []
+        for pt in s.parts:
+            o = s.dir + '/tu%s.o' % pt['suf']
+            fl = list(pt['flags']) + (['-DVF_PFX=g%s' % pt['pfx'].rstrip('_')] if pt['pfx'] else [])
+            rc, out, t = run(['g++', '-O1', '-c', pt['cpp'], '-o', o] + CXXFLAGS + fl + s.excflag())
+            s.times['g++'] = s.times.get('g++', 0) + t
+            if rc: raise VfError('g++ failed for %s be%s:\n%s' % (s.name, s.be, out[-3000:]))
+            objs.append(o)
+        for k, src in enumerate([s.hc] + s.rt_files):
+            o = s.dir + '/h_real%d.o' % k
+            rc, out, t = run(['gcc', '-O1', '-c', src, '-o', o, '-I' + VERIF + '/harness'])
+            if rc: raise VfError('gcc harness failed:\n' + out[-3000:])
+            objs.append(o)
+        rc, out, t = run(['g++'] + objs + ['-o', s.exe_real])
         if rc: raise VfError('link real failed:\n' + out[-3000:])
 
     def lower(s):
-        rc, out, t = run(CLANG_LOWER + [s.cpp, '-o', s.ll] + CXXFLAGS + s.flags + s.excflag())
-        s.times['clang'] = t
-        if rc: raise VfError('clang failed for %s be%d:\n%s' % (s.name, s.be, out[-3000:]))
-        rc, out, t = run([sys.executable, VERIF + '/tools/ll2c.py', s.ll], timeout=600)
-        s.times['ll2c'] = t
-        if rc: raise VfError('ll2c failed for %s be%d:\n%s' % (s.name, s.be, out[-3000:]))
-        open(s.genc, 'w').write(out)
-        # functions encoded (defined in IR)
-        s.functions = re.findall(r'^define [^@]*@("?[^"(\s]+"?)\(', open(s.ll).read(), re.M)
+        s.functions = []
+        for pt in s.parts:
+            rc, out, t = run(CLANG_LOWER + [pt['cpp'], '-o', pt['ll']] + CXXFLAGS + pt['flags'] + s.excflag())
+            s.times['clang'] = s.times.get('clang', 0) + t
+            if rc: raise VfError('clang failed for %s be%s:\n%s' % (s.name, s.be, out[-3000:]))
+            cmd = [sys.executable, VERIF + '/tools/ll2c.py', pt['ll']] + (['--prefix', pt['pfx']] if pt['pfx'] else [])
+            rc, out, t = run(cmd, timeout=600)
+            s.times['ll2c'] = s.times.get('ll2c', 0) + t
+            if rc: raise VfError('ll2c failed for %s be%s:\n%s' % (s.name, s.be, out[-3000:]))
+            open(pt['genc'], 'w').write(out)
+            # functions encoded (defined in IR)
+            s.functions += re.findall(r'^define [^@]*@("?[^"(\s]+"?)\(', open(pt['ll']).read(), re.M)
+
+    def c_sources(s):
+        return [pt['genc'] for pt in s.parts] + [s.hc] + s.rt_files + [VERIF + '/tools/rt.c']
 
     def build_gen(s):
         inc = ['-I' + VERIF + '/harness', '-I' + VERIF + '/tools']
-        rc, out, t = run(['gcc', '-O0', '-w', '-falign-functions=16', '-DGEN', s.genc, s.hc, VERIF + '/harness/vf_harness.c',
-                          VERIF + '/tools/rt.c', '-o', s.exe_gen] + inc)
+        rc, out, t = run(['gcc', '-O0', '-w', '-falign-functions=16', '-DGEN'] + s.c_sources() + ['-o', s.exe_gen] + inc)
         s.times['gcc-gen'] = t
-        if rc: raise VfError('gcc of generated C failed for %s be%d:\n%s' % (s.name, s.be, out[-3000:]))
+        if rc: raise VfError('gcc of generated C failed for %s be%s:\n%s' % (s.name, s.be, out[-3000:]))
 
     def run_native(s, exe, h, inputs, printlog=False):
         env = dict(os.environ)
@@ -103,12 +122,12 @@ class Unit:
                 if ra == 77 and rb == 77: continue
                 cnt += 1
                 if ra != rb or oa != ob:
-                    raise VfError('TRANSLATOR MISMATCH %s be%d harness %d inputs %s\n--- real\n%s\n--- gen\n%s' % (s.name, s.be, h, ins, oa, ob))
+                    raise VfError('TRANSLATOR MISMATCH %s be%s harness %d inputs %s\n--- real\n%s\n--- gen\n%s' % (s.name, s.be, h, ins, oa, ob))
         return cnt
 
     def cbmc(s, h, witness=False, timeout=120, unwind=6, extra=(), trace=True, mem_gb=16):
         inc = ['-I' + VERIF + '/harness', '-I' + VERIF + '/tools']
-        cmd = ['cbmc', s.genc, s.hc, VERIF + '/harness/vf_harness.c', VERIF + '/tools/rt.c', '-DGEN', '--function', 'harness_p%d' % h,
+        cmd = ['cbmc'] + s.c_sources() + ['-DGEN', '--function', 'harness_p%d' % h,
                '--unwind', str(unwind)] + CBMC_FLAGS + inc + list(extra)
         if witness: cmd += ['-DWITNESS']
         if trace: cmd += ['--trace']
